@@ -69,6 +69,22 @@ def writer_table(ctx):
             probs.append(f"member {nm!r} is not guarded by `self.<field {idx}>` being Some")
     return f, table, probs
 
+def _member_local(f, op):
+    """The named local variable whose value the operand moves (through compiler temporaries): the per-member accumulator."""
+    pl = op.get("move") or op.get("copy")
+    seen = 0
+    while pl is not None and not pl["p"] and seen < 6:
+        l = pl["l"]
+        if f["body"]["locals"][l].get("name"):
+            return l
+        defs = [st for b in f["body"]["blocks"] for st in b["stmts"] if st["k"] == "assign" and st["place"]["l"] == l and not st["place"]["p"]]
+        if len(defs) != 1 or defs[0]["rv"]["k"] != "use":
+            return None
+        o2 = defs[0]["rv"]["op"]
+        pl = o2.get("move") or o2.get("copy")
+        seen += 1
+    return None
+
 def reader_tables(ctx):
     w = ctx.world
     cr = ctx.crates["paseto_json"]
@@ -136,15 +152,14 @@ def reader_tables(ctx):
     for b in vm["body"]["blocks"]:
         for st in b["stmts"]:
             if st["k"] == "assign" and st["rv"]["k"] == "agg" and st["rv"]["ak"].get("path", "").endswith("RegisteredClaims") and st["rv"]["ak"].get("a") == "adt":
-                ops = [og.operand(o, 0) for o in st["rv"]["ops"]]
-                agg_fields = [(o[1] if isinstance(o, tuple) and o[0] == "phi" else None) for o in ops]
+                agg_fields = [_member_local(vm, o) for o in st["rv"]["ops"]]
     if not agg_fields or any(x is None for x in agg_fields):
         probs.append("final RegisteredClaims aggregate is not built from the per-member locals")
         return name2var, {}, None, probs
     local2field = {l: i for i, l in enumerate(agg_fields)}
     if len(local2field) != len(agg_fields):
         probs.append("two struct fields are filled from the same local")
-    it = Interp(w, inline=False)
+    it = Interp(w, inline=True)        # private helpers that fill a member through `&mut Option<T>` are followed
     res = it.run(vm)
     nm = Norm()
     root_frame = min(k[1] for r in res for k in r.path.store if k[0] == "L")
